@@ -174,9 +174,16 @@ def killStates (q : Parsed) : List String :=
       | some c => digest c
       | none => "gone"
 
-def valueObs (async : Bool) (comp : Comp) (need : Nat) (dec : Option Bytes) (openOk beve : Bool) (wire : Wire) : String :=
-  if !openOk || !beve then "ret err" else
-  let d : Decoder Bytes := ⟨fun acc => if acc.length ≥ need then some (acc.take need) else none, fun _ => none⟩
+def valueObs (mode : String) (comp : Comp) (need : Nat) (dec : Option Bytes) (openOk beve : Bool) (wire : Wire) : String :=
+  let async := mode.endsWith "async"
+  let base := if async then (mode.dropEnd 5).toString else mode
+  let base := if base = "" then "sync" else base
+  -- pull_to_vec / pull_consume place no format constraint and read to EOF; the others decode BEVE
+  let toEnd := base = "vec" ∨ base = "consume" ∨ base = "consumeerr" ∨ base = "consumepanic"
+  if !openOk || (!beve && !toEnd) then "ret err" else
+  if base = "consumepanic" then (if async then "ret err" else "ret panic") else
+  let d : Decoder Bytes := if toEnd then ⟨fun _ => none, fun acc => some acc⟩
+    else ⟨fun acc => if acc.length ≥ need then some (acc.take need) else none, fun _ => none⟩
   -- a compressed stream reaches the value decoder as far as it decompresses: `dec` = the stream
   -- decoder's output on the delivered bytes (recorded by the harness), then EOF iff `last` was reached
   let wire' : Wire := match comp with
@@ -185,7 +192,7 @@ def valueObs (async : Bool) (comp : Comp) (need : Nat) (dec : Option Bytes) (ope
         [if (payload wire).isSome then .chunk [] true else .cut]
   let v := if async then valueAsync Gen.Commit.pullResFirst d false wire' else valueSync d wire'
   match v with
-  | some bs => "ret ok " ++ digest bs
+  | some bs => if base = "consumeerr" then "ret err" else "ret ok " ++ digest bs
   | none => "ret err"
 
 def step (st : Unit) (ws : List String) : Unit × String :=
@@ -239,8 +246,9 @@ def step (st : Unit) (ws : List String) : Unit × String :=
   | "value" :: idx :: mode :: co :: fm :: op :: "need" :: nd :: dc :: "wire" :: rest =>
     match compOf co, allSome (rest.map respOf), decOf dc with
     | some comp, some wire, some dec =>
-      if (mode = "sync" ∨ mode = "async") ∧ nd.isNat ∧ (fm = "beve" ∨ fm = "raw") ∧ (op = "ok" ∨ op = "err" ∨ op = "cut") then
-        (st, idx ++ " " ++ valueObs (mode = "async") comp (natOf nd) dec (op = "ok") (fm = "beve") wire)
+      if ["sync", "async", "stream", "vec", "vecasync", "typed", "typedasync", "complex", "complexasync", "consume", "consumeasync",
+          "consumeerr", "consumeerrasync", "consumepanic", "consumepanicasync"].contains mode ∧ nd.isNat ∧ (fm = "beve" ∨ fm = "raw") ∧ (op = "ok" ∨ op = "err" ∨ op = "cut") then
+        (st, idx ++ " " ++ valueObs mode comp (natOf nd) dec (op = "ok") (fm = "beve") wire)
       else (st, idx ++ " bad-op")
     | _, _, _ => (st, idx ++ " bad-op")
   | _ => (st, "bad-op")
